@@ -3,6 +3,7 @@ import re
 import uuid
 from datetime import date
 from decimal import Decimal
+from string import Formatter
 from typing import Any, Dict, Generic, List, Optional, Pattern, Sequence, Tuple, TypeVar
 
 try:
@@ -162,14 +163,14 @@ class Route(Generic[Interface]):
         self.path_format: str
         self.path_convertors: Dict[str, Convertor]
         self.path_format, self.path_convertors = compile_path(path)
-        self.re_pattern = re.compile(
-            self.path_format.format_map(
-                {
-                    name: f"(?P<{name}>{convertor.regex})"
-                    for name, convertor in self.path_convertors.items()
-                }
-            )
-        )
+        # Literal text has to match verbatim, so it is escaped; only the
+        # placeholders contribute regular expression syntax.
+        regex = ""
+        for literal, name, _, _ in Formatter().parse(self.path_format):
+            regex += re.escape(literal)
+            if name is not None:
+                regex += f"(?P<{name}>{self.path_convertors[name].regex})"
+        self.re_pattern = re.compile(regex)
         self.endpoint: Interface = endpoint
 
     def matches(self, path: str) -> Tuple[bool, Dict[str, Any]]:
